@@ -375,7 +375,6 @@ func c15Find(c *c15Case, md string, only map[int]bool) *c15Mismatch {
 	return nil
 }
 
-
 func c15KindName(k string) string {
 	if k == "o" {
 		return "ordered"
